@@ -72,6 +72,17 @@ fn verify_case(run: &mut Run, jumbf: &[u8], kind: &str) -> Option<usize> {
         run.notes.push(format!("{kind}: store not expressible in the protocol"));
         return None;
     }
+    // hypothesis of `redact_assertion_gone`: (label, instance) pairs are unique within every
+    // assertion store the harness meets (stores parsed from JUMBF included)
+    for c in store.claims() {
+        let mut keys: Vec<String> = c.claim_assertion_store().iter().map(|a| a.label()).collect();
+        let n = keys.len();
+        keys.sort();
+        keys.dedup();
+        if keys.len() != n {
+            run.obligations.insert("assertion-keys-unique".into(), false);
+        }
+    }
     let imp = impl_verify(&store);
     run.count(&format!("verify_{kind}"));
     let req = format!("C20 verify claims={line}");
@@ -188,6 +199,11 @@ fn redact_child(run: &mut Run, parent: &Node, mask: u32, intent: BuilderIntent, 
     if r.ok() && listed != want {
         run.fail(idx, "listed-redactions-differ", format!("{kind}: requested {want:?}, listed {listed:?}"));
     }
+    // the Builder's post-check on what it really listed: the model must accept too
+    if !uris.is_empty() {
+        let applied = r.redactions.clone().unwrap_or_default();
+        run.case(format!("C20 post applied={} reqs={}", opt_list(if applied.is_empty() { None } else { Some(applied.as_slice()) }), opt_list(Some(uris.as_slice()))), "1".into());
+    }
     let label = r.active.clone()?;
     for (l, mk) in &own {
         live.push((label.clone(), l.clone(), mk.clone()));
@@ -201,8 +217,14 @@ fn disallowed_builder(run: &mut Run, parent: &Node, uri: String, what: &str, own
     let d = definition("bad", fmt, vec![redacted_action(&uri)], &[("org.verif.own".into(), "x".into())], Some(vec![uri.clone()]), own_label);
     let res = guarded(|| sign(&d, Some(BuilderIntent::Edit), fmt, &parent.asset, &[]));
     run.count(&format!("builder_disallowed_{what}"));
+    // the Builder's post-check (`applied` = nothing, since `redact_assertion` refuses or finds
+    // nothing): model says 0 = refuse; the implementation side is what `Builder::sign` really did
     let req = format!("C20 post applied=- reqs={uri}");
-    let idx = run.case(req, "0".into());
+    let imp = match &res {
+        Ok(Ok(_)) => "1",
+        _ => "0",
+    };
+    let idx = run.case(req, imp.into());
     run.nontrivial(format!("disallowed {what} {}", parent.depth));
     match res {
         Ok(Err(_)) => {}
@@ -245,6 +267,37 @@ fn surgery(run: &mut Run, node: &Node) {
         let r = read_sidecar(&j2, fmt, &node.asset);
         if r.ok() {
             run.fail(idx, "silent-removal-valid", format!("{m}/{l} removed without a redaction entry (depth {}), reader says {}", node.depth, r.state));
+        }
+    }
+    // (1b) silent removal of every other assertion (actions, hard binding, ingredient, …) by
+    // cutting its box out of the serialised store (`Claim::redact_assertion` refuses actions
+    // and hard bindings)
+    if let Ok(store) = load_store(&jumbf) {
+        for (m, ls) in manifest_assertion_labels(&store) {
+            for l in ls {
+                // live notes are handled by (1); a note that is in the store but not live is one a
+                // redaction entry covers and that BMFF update manifests leave in the `original`
+                // box (open finding): cutting it out is what the redaction asked for
+                if l.starts_with("org.verif.") {
+                    continue;
+                }
+                let Some(j2) = jumbf_remove_assertion(&jumbf, &m, &l) else {
+                    run.notes.push(format!("surgery: box {m}/{l} not found"));
+                    continue;
+                };
+                let class_of = if l.starts_with("c2pa.actions") { "actions" } else if l.starts_with("c2pa.hash.") { "hash" } else if l.starts_with("c2pa.ingredient") { "ingredient" } else { "other" };
+                let kind = format!("box_removal_{class_of}_{}", if m == node.label { "active" } else { "ingredient" });
+                run.count(&kind);
+                // rules of verify_actions that fire when the actions assertion or the ingredient
+                // an action refers to is gone are not modelled: implementation oracle only
+                let idx = if class_of == "hash" || class_of == "other" { verify_case(run, &j2, &kind) } else { None }.unwrap_or(run.reqs.len().saturating_sub(1));
+                let r = read_sidecar(&j2, fmt, &node.asset);
+                if r.ok() {
+                    run.fail(idx, "silent-removal-valid", format!("{m}/{l} cut out of the store without a redaction entry (depth {}), reader says {}", node.depth, r.state));
+                } else {
+                    run.nontrivial(format!("box removal {class_of} {} {}", m == node.label, node.depth));
+                }
+            }
         }
     }
     // (2) post-signing change of assertion data (one byte of the marker)
@@ -290,17 +343,100 @@ fn crafted_disallowed(run: &mut Run, rng: &mut Rng, node: &Node, src: &[u8]) {
         // control: only the legal entry, really applied by the signer's routine
         targets.push(("control".into(), vec![assertion_uri(m, l)], false));
     }
-    for (what, reds, must_flag) in targets {
+    struct T {
+        what: String,
+        reds: Vec<String>,
+        /// Some(true): must not be Valid; Some(false): must be Valid; None: observation only
+        must_flag: Option<bool>,
+        prerec: Vec<(String, String)>,
+        /// (manifest, assertion label) removed from the ingredient store before it is loaded
+        strip: Option<(String, String)>,
+        silent: Vec<String>,
+        rehash: bool,
+    }
+    let mut ts: Vec<T> = targets.iter().map(|(w, r, f)| T { what: w.clone(), reds: r.clone(), must_flag: Some(*f), prerec: vec![], strip: None, silent: vec![], rehash: false }).collect();
+    // the same disallowed targets with exactly the failure status the validator will log for them
+    // pre-recorded in the validation results of the crafted claim's own ingredient assertion
+    // (`ValidationResults::from_store` drops a logged status whose URL names another manifest
+    // when an equal status is found in any ingredient assertion of the store), with the target
+    // left in place and with the target really stripped from the ingredient
+    for (what, reds, _) in &targets {
+        let code = match what.as_str() {
+            "actions" => "assertion.action.redacted",
+            "hash" => "assertion.dataHash.redacted",
+            _ => continue,
+        };
+        let pre: Vec<(String, String)> = reds.iter().map(|u| (code.to_string(), u.clone())).collect();
+        ts.push(T { what: format!("{what}_prerec"), reds: reds.clone(), must_flag: Some(true), prerec: pre.clone(), strip: None, silent: vec![], rehash: false });
+        // u = self#jumbf=/c2pa/<m>/c2pa.assertions/<l>; only hard bindings are stripped (a claim
+        // without its actions assertion trips rules of verify_actions that are not modelled)
+        let parts: Vec<&str> = reds[0].split('/').collect();
+        if parts.len() >= 5 && what == "hash" {
+            let strip = Some((parts[2].to_string(), parts[4].to_string()));
+            ts.push(T { what: format!("{what}_stripped"), reds: reds.clone(), must_flag: Some(true), prerec: vec![], strip: strip.clone(), silent: vec![], rehash: false });
+            ts.push(T { what: format!("{what}_stripped_prerec"), reds: reds.clone(), must_flag: Some(true), prerec: pre, strip, silent: vec![], rehash: false });
+        }
+    }
+    // an assertion removed from the ingredient without any redaction entry: (a) after the hashed
+    // URI of the ingredient was made, (b) before (the hashed URI matches the damaged manifest),
+    // (c) as (b) with `assertion.missing` recorded in the ingredient assertion. (c) is what an
+    // honest signer importing a damaged ingredient produces: C2PA does not re-report recorded
+    // ingredient failures, so it is an observation, not a violation.
+    if let Some((m, l, _)) = node.live.first() {
+        let u = assertion_uri(m, l);
+        ts.push(T { what: "ing_removal".into(), reds: vec![], must_flag: Some(true), prerec: vec![], strip: None, silent: vec![u], rehash: false });
+    }
+    // (b), (c): the assertion is one of the direct ingredient (only its hashed URI is re-made)
+    if let Some((m, l, _)) = node.live.iter().find(|(m, _, _)| *m == node.label) {
+        let u = assertion_uri(m, l);
+        ts.push(T { what: "ing_removal_rehash".into(), reds: vec![], must_flag: Some(true), prerec: vec![], strip: None, silent: vec![u.clone()], rehash: true });
+        ts.push(T { what: "ing_removal_rehash_prerec".into(), reds: vec![], must_flag: None, prerec: vec![("assertion.missing".into(), u.clone())], strip: None, silent: vec![u.clone()], rehash: true });
+        // the recorded status must equal the logged one in code AND url to be dropped
+        ts.push(T { what: "ing_removal_rehash_prerec_wrongurl".into(), reds: vec![], must_flag: Some(true), prerec: vec![("assertion.missing".into(), format!("{u}x"))], strip: None, silent: vec![u.clone()], rehash: true });
+        ts.push(T { what: "ing_removal_rehash_prerec_wrongcode".into(), reds: vec![], must_flag: Some(true), prerec: vec![("assertion.hashedURI.mismatch".into(), u.clone())], strip: None, silent: vec![u.clone()], rehash: true });
+        // not re-hashed: besides assertion.missing (ingredient scope, URL in the ingredient) the
+        // validator logs ingredient.manifest.mismatch in ingredient scope with a URL that names the
+        // ACTIVE manifest (its ingredient assertion); both recorded: the second one must survive
+        ts.push(T {
+            what: "ing_removal_prerec_all".into(),
+            reds: vec![],
+            must_flag: Some(true),
+            prerec: vec![("assertion.missing".into(), u.clone()), ("ingredient.manifest.mismatch".into(), assertion_uri(&own, "c2pa.ingredient.v3"))],
+            strip: None,
+            silent: vec![u],
+            rehash: false,
+        });
+    }
+    // (a v3 ingredient assertion without validation results — the one status logged in ingredient
+    // scope with a URL naming the ACTIVE manifest — cannot be made through the claim API:
+    // AssertionEncoding; the `is_active_manifest` disjunct of the filter is therefore only
+    // exercised on statuses nobody records)
+    for t in ts {
+        let what = t.what.as_str();
+        let reds = &t.reds;
         let legal: Vec<String> = if what == "control" || what == "mixed" { vec![reds[0].clone()] } else { vec![] };
+        let ing_jumbf = match &t.strip {
+            Some((m, l)) => match jumbf_remove_assertion(&pj, m, l) {
+                Some(j) => j,
+                None => {
+                    run.notes.push(format!("craft {what}: could not strip {m}/{l}"));
+                    continue;
+                }
+            },
+            None => pj.clone(),
+        };
         let c = Craft {
+            prerecorded: t.prerec.clone(),
             label: own.clone(),
-            ingredients: vec![(pj.clone(), "p".into())],
+            ingredients: vec![(ing_jumbf, "p".into())],
             load_redactions: if legal.is_empty() { None } else { Some(legal.clone()) },
-            force_redactions: Some(Some(reds.clone())),
+            force_redactions: if reds.is_empty() { None } else { Some(Some(reds.clone())) },
             actions: reds.iter().map(|u| ("c2pa.redacted".to_string(), Some(u.clone()))).collect(),
             inception: "opened".into(),
             notes: vec![("org.verif.x0".into(), marker("x", "0"))],
             data_hash: true,
+            silent_removals: t.silent.clone(),
+            rehash: t.rehash,
             ..Default::default()
         };
         let crafted = match guarded(|| craft(&c, src)) {
@@ -316,13 +452,33 @@ fn crafted_disallowed(run: &mut Run, rng: &mut Rng, node: &Node, src: &[u8]) {
         };
         let kind = format!("crafted_{what}");
         let idx = verify_case(run, &crafted.jumbf, &kind).unwrap_or(run.reqs.len().saturating_sub(1));
+        filter_check(run, &crafted.jumbf, &kind);
         let r = read_sidecar(&crafted.jumbf, fmt, src);
-        if must_flag && r.ok() {
-            run.fail(idx, "disallowed-redaction-valid", format!("crafted manifest redacting {what} ({reds:?}) is {}", r.state));
+        match t.must_flag {
+            Some(true) if r.ok() => {
+                let class = if what.ends_with("_prerec") { "disallowed-redaction-valid-prerecorded" } else if what.starts_with("ing_removal") { "silent-removal-valid" } else { "disallowed-redaction-valid" };
+                run.fail(idx, class, format!("crafted manifest {what} (redactions {reds:?}, removed {:?}, stripped {:?}) is {}", t.silent, t.strip, r.state));
+            }
+            Some(false) if !r.ok() => {
+                run.fail(idx, "legal-redaction-not-valid", format!("crafted control with a legal redaction is {} {:?}", r.state, r.failures));
+            }
+            None => {
+                run.count(&format!("observation_{what}_{}", r.state));
+            }
+            _ => {}
         }
-        if !must_flag && !r.ok() {
-            run.fail(idx, "legal-redaction-not-valid", format!("crafted control with a legal redaction is {} {:?}", r.state, r.failures));
+    }
+}
+
+/// the `from_store` filter on the real validation log of a store (model: `fromStoreFilter`)
+fn filter_check(run: &mut Run, jumbf: &[u8], kind: &str) {
+    let Ok(store) = load_store(jumbf) else { return };
+    if let Some((req, imp, dropped)) = filter_case_of_store(&store) {
+        run.count(&format!("filter_{kind}"));
+        if dropped > 0 {
+            run.nontrivial(format!("filter drops {dropped} {kind}"));
         }
+        run.case(format!("C20 {req}"), imp);
     }
 }
 
@@ -574,4 +730,6 @@ pub fn run(run: &mut Run, rng: &mut Rng) {
         }
     }
     run.obligations.insert("builder-chains-produced".into(), run.dist.keys().any(|k| k.starts_with("builder_edit_d3") || k.starts_with("builder_update_d3")));
+    run.obligations.entry("assertion-keys-unique".into()).or_insert(true);
+    run.obligations.insert("from-store-filter-exercised".into(), run.nontrivial.iter().any(|k| k.starts_with("filter drops")));
 }
